@@ -546,9 +546,7 @@ impl Translator {
             | FuncKind::HostFunctionWrapper(_) => {
                 st.return_stack.pop();
                 // the return type of this instantiation (a generic `T` may be void here)
-                let SolvedType::Function(_, out_ty) = func_ty.subst(&mono) else {
-                    unreachable!()
-                };
+                let SolvedType::Function(_, out_ty) = func_ty.subst(&mono) else { unreachable!() };
                 if *out_ty == SolvedType::Void {
                     self.emit(st, Instr::ReturnVoid);
                 } else {
@@ -2440,8 +2438,31 @@ impl Translator {
                                         self.emit(st, Instr::SetIndex(Reg::Top, Reg::Top));
                                     }
                                     _ => {
-                                        // interface method Index::index_set()
-                                        unimplemented!()
+                                        // through the Index interface: x[i] = x[i] op v
+                                        // receiver and index for index_set()
+                                        self.translate_expr(array, offset_table, mono, st);
+                                        self.translate_expr(index, offset_table, mono, st);
+                                        // current value, read with index_get()
+                                        self.translate_expr(expr1, offset_table, mono, st);
+                                        self.translate_expr(rvalue, offset_table, mono, st);
+                                        perform_op(st);
+                                        let index_iface_decl =
+                                            self.statics.get_iface_decl("prelude.Index");
+                                        let fn_index_set_ty = SolvedType::Function(
+                                            vec![
+                                                self.get_ty(mono, array.node()).unwrap(),
+                                                self.get_ty(mono, index.node()).unwrap(),
+                                                self.get_ty(mono, expr1.node()).unwrap(),
+                                            ],
+                                            SolvedType::Void.into(),
+                                        );
+                                        self.translate_iface_method_call_helper(
+                                            st,
+                                            mono,
+                                            &index_iface_decl,
+                                            1,
+                                            &fn_index_set_ty,
+                                        );
                                     }
                                 }
                             }
